@@ -80,5 +80,33 @@ theorem backends_agree_nonascii (s : Bytes) (mem : Mem) (base : Nat) (h : Holds 
   · intro hl
     rw [C13.small_is_scalar _ mem base s.length hl, hi]; rfl
 
+/-- **the assembly entry points do not depend on the CPU features.**  With the byte string `s` in memory and its address,
+    length and the needle in the caller's frame, the instruction-level model of `·IndexByte`, `·Count` and
+    `·IndexByteNonASCII` (regenerated wrapper + body, `C13.kernel_entries`) stores the list-level scalar definition the
+    algorithm model calls — **whatever the AVX2 flag** (there is no hypothesis on `st.avx2`), whatever the other registers,
+    flags and vector lanes hold; without POPCNT the counting wrappers tail-call `countGeneric[String]`, whose model
+    `genCount` is the same function (`generic_count`). -/
+theorem assembly_backends (s : Bytes) (c : UInt8) (mem : Mem) (base : Nat) (h : Holds mem base s) (st : Asm.St) (f : Nat)
+    (hb : base + s.length + 128 < 2 ^ 62) (hc : st.args "c" % 256 = c.toNat)
+    (h1 : st.args "b_base" = base) (h2 : st.args "b_len" = s.length)
+    (hmem : st.mem = mem) (hout : st.out = none) (hl : st.loads = []) (hf : 15 * (s.length + 1) + 80 ≤ f) :
+    (Asm.call Gen.Asm.wrap_IndexByte f st).out = some (S.kernIndexByte s c) ∧
+    (st.popcnt = true → (Asm.call Gen.Asm.wrap_Count f st).out = some ((S.kernCount s c : Nat) : Int)) ∧
+    (st.popcnt = false →
+      (Asm.run Gen.Asm.wrap_Count f (Asm.block Gen.Asm.wrap_Count "entry") st).tail = some "countGeneric" ∧
+      genCount s c = S.kernCount s c) ∧
+    (Asm.call Gen.Asm.wrap_IndexByteNonASCII f st).out = some (S.indexNonASCII s) := by
+  have hk := C13.kernel_entries mem base s.length c st f hb hc hmem hout hl hf
+  have hi := specIndex_list (S.byteEqFold c) mem base s h
+  have hn := specIndex_list (fun b => decide (b ≥ 0x80)) mem base s h
+  have hcn := specCount_list (S.byteEqFold c) mem base s h
+  obtain ⟨hA, _, hC⟩ := hk
+  obtain ⟨hA1, hA2, hA3⟩ := hA h1 h2
+  refine ⟨?_, ?_, ?_, ?_⟩
+  · rw [hA1.1, hi]; rfl
+  · intro hp; rw [(hA2 hp).1, hcn]; rfl
+  · intro hp; exact ⟨(hC hp).1, genCount_eq s c⟩
+  · rw [hA3.1, hn]; rfl
+
 example : genIndexByte [0x78, 0x4B, 0x6B] 0x6B = 1 ∧ genCount [0x78, 0x4B, 0x6B] 0x6B = 2 := by decide +kernel
 end C14
